@@ -819,6 +819,14 @@ def glue_greenlet() -> None:
                     and outer_frame.f_back is not None
                 ):
                     outer_frame = outer_frame.f_back
+        elif sys.implementation.name == "cpython":
+            # A suspended greenlet's stack ends where its own f_back chain
+            # ends, even if the caller is running in one of its descendants
+            # (in which case the generic slicing logic would continue through
+            # the caller's greenlet parents).
+            outer_frame = inner_frame
+            while outer_frame.f_back is not None:
+                outer_frame = outer_frame.f_back
         return StackSlice(outer=outer_frame, inner=inner_frame)
 
     if sys.implementation.name != "pypy":
